@@ -82,14 +82,28 @@ ObjOps     == {"proxy_mutate", "proxy_pop", "proxy_clear"} \cup IopOps   \* forw
 \* 4 -> frozenset({7})   5 -> [7, 7]   (`*=` always multiplies by 2)
 IopArgs    == 1..5
 SmallIop   == {1, 3}
+\* middleware requests enumerated by the bounded models (overridable in a cfg)
+MwVariants == 0..3
+MwForms    == {"make", "deco"}
+MwPush     == Boxes \cup {NoBox}
+MwMake     == {"make"}
+MwNoPush   == {NoBox}
 IopQuick   == {1, 5}
-ReleaseOps == {"release", "release_stack", "cleanup"}
-KnownOps   == NsOps \cup StackOps \cup ProxyOps \cup {"cleanup", "spawn"}
+\* release paths: release_local(local) / local.__release_local__() for the namespace and the stack,
+\* LocalManager.cleanup(), closing the iterable returned by the LocalManager middleware, popping
+\* the stack until it is empty
+ReleaseOps == {"release", "release_stack", "cleanup", "release_dunder", "release_stack_dunder",
+               "mw", "pop_all"}
+MgrOps     == {"mkmgr", "mgr_append"}
+MgrForms   == {"none", "local", "stack", "both", "lstack"}    \* LocalManager() / (ns) / (stack) / ([ns, stack]) / ([stack])
+KnownOps   == NsOps \cup StackOps \cup ProxyOps \cup ReleaseOps \cup MgrOps \cup {"spawn"}
 ReadOps    == {"get", "iter", "top", "proxy_read"}
 
 \* ---- state ------------------------------------------------------------------------------
 \*  alive : contexts that exist                    attrs : per context, name -> box | NoBox
 \*  stack : per context, sequence of boxes         cont  : box -> value of its field `val`
+\*  mgr   : the locals the LocalManager object in use manages (a subset of {"ns", "stack"}); one
+\*          global Python object like the proxies, replaced by "mkmgr", extended by "mgr_append"
 \*  made  : proxy kinds for which a LocalProxy object exists (a proxy is one global object held
 \*          in one Python name; it is not bound to the context that created it, and the name
 \*          keeps holding the proxy whatever is done through it, augmented assignment included)
@@ -98,7 +112,8 @@ InitState(made0) ==
    attrs |-> [c \in Ctxs |-> [n \in Names |-> NoBox]],
    stack |-> [c \in Ctxs |-> <<>>],
    cont  |-> [b \in Boxes |-> Init0(b)],
-   made  |-> made0]
+   made  |-> made0,
+   mgr   |-> {"ns", "stack"}]      \* what the current LocalManager manages (initially both)
 
 \* ---- operations -------------------------------------------------------------------------
 \* op record : [ctx, op, n (name | ""), b (box | 0), v (value), k (proxy kind | ""), child (ctx | 0)]
@@ -125,7 +140,29 @@ Enabled(S, o) ==
        [] o.op = "mkproxy"                          -> o.k \in PKinds
        [] o.op \in {"proxy_read"} \cup ObjOps       -> o.k \in S.made
        [] o.op = "spawn"                            -> o.child \in Ctxs \ S.alive
+       [] o.op = "mkmgr"                            -> o.k \in MgrForms
+       [] o.op = "mgr_append"                       -> o.k \in {"local", "stack"}
+       \* one request through manager.make_middleware(app) ("make") / @manager.middleware ("deco");
+       \* the app binds name n to b (n given), else pushes b (b given), else touches nothing;
+       \* v: 0 = body consumed then closed, 1 = closed unconsumed, 2 = partly consumed then closed,
+       \*    3 = the app raises (nothing is returned that could be closed)
+       [] o.op = "mw"  -> /\ o.k \in {"make", "deco"} /\ o.v \in 0..3
+                          /\ (IF o.n # "" THEN o.n \in Names /\ o.b \in Boxes ELSE o.b \in Boxes \cup {NoBox})
        [] OTHER                                     -> TRUE
+
+MgrOf(k) == CASE k = "none" -> {} [] k = "local" -> {"ns"} [] k \in {"stack", "lstack"} -> {"stack"}
+              [] OTHER -> {"ns", "stack"}
+\* the locals in m are released in context c (and nowhere else)
+ReleaseIn(S, c, m) == [S EXCEPT !.attrs[c] = IF "ns" \in m THEN NoAttrs ELSE @,
+                                !.stack[c] = IF "stack" \in m THEN <<>> ELSE @]
+AppEffect(S, o) == IF o.n # "" THEN [S EXCEPT !.attrs[o.ctx][o.n] = o.b]
+                   ELSE IF o.b # NoBox THEN [S EXCEPT !.stack[o.ctx] = Append(@, o.b)] ELSE S
+\* what a release path releases in the acting context
+Released(S, o) == CASE o.op \in {"release", "release_dunder"} -> {"ns"}
+                    [] o.op \in {"release_stack", "release_stack_dunder", "pop_all"} -> {"stack"}
+                    [] o.op = "cleanup" -> S.mgr
+                    [] o.op = "mw" -> IF o.v = 3 THEN {} ELSE S.mgr
+                    [] OTHER -> {}
 
 \* An operation forwarded by a proxy to the object b it resolved to (b # NoBox): what Python does.
 \*   proxy.val = v : plain objects take it; list / dict / int / str have no such attribute
@@ -166,6 +203,8 @@ RetOf(S, o) ==
     [] o.op = "del"  -> IF S.attrs[c][o.n] # NoBox THEN OkR ELSE ExcR("AttributeError")
     [] o.op = "iter" -> IntR(Cardinality(BoundNames(S, c)))
     [] o.op \in {"pop", "top"} -> IF Len(S.stack[c]) = 0 THEN NoneR ELSE BoxR(TopOf(S.stack[c]))
+    [] o.op = "pop_all" -> IntR(Len(S.stack[c]))                 \* number of items popped before None
+    [] o.op = "mw" -> IF o.v = 3 THEN ExcR("AppError") ELSE OkR  \* (not judged: not part of the property)
     [] o.op = "proxy_read"   -> IF Bound(S, c, o.k) # NoBox THEN BoxR(Bound(S, c, o.k)) ELSE ExcR("RuntimeError")
     [] o.op \in ObjOps -> IF Bound(S, c, o.k) # NoBox THEN ObjRet(S.cont, Bound(S, c, o.k), o)
                            ELSE ExcR("RuntimeError")
@@ -176,12 +215,17 @@ NextOf(S, o) ==
   LET c == o.ctx IN
   CASE o.op = "set"  -> [S EXCEPT !.attrs[c][o.n] = o.b]
     [] o.op = "del"  -> [S EXCEPT !.attrs[c][o.n] = NoBox]
-    [] o.op = "release" -> [S EXCEPT !.attrs[c] = NoAttrs]
+    [] o.op \in {"release", "release_dunder"} -> [S EXCEPT !.attrs[c] = NoAttrs]
     [] o.op = "push" -> [S EXCEPT !.stack[c] = Append(@, o.b)]
     [] o.op = "pop"  -> IF Len(S.stack[c]) = 0 THEN S
                         ELSE [S EXCEPT !.stack[c] = SubSeq(@, 1, Len(@) - 1)]
-    [] o.op = "release_stack" -> [S EXCEPT !.stack[c] = <<>>]
-    [] o.op = "cleanup" -> [S EXCEPT !.attrs[c] = NoAttrs, !.stack[c] = <<>>]
+    [] o.op \in {"release_stack", "release_stack_dunder", "pop_all"} -> [S EXCEPT !.stack[c] = <<>>]
+    [] o.op = "cleanup" -> ReleaseIn(S, c, S.mgr)
+    \* "local data is released automatically after the response has been sent": closing the returned
+    \* iterable releases (consumed or not); when the app raises there is nothing to close
+    [] o.op = "mw" -> IF o.v = 3 THEN AppEffect(S, o) ELSE ReleaseIn(AppEffect(S, o), c, S.mgr)
+    [] o.op = "mkmgr" -> [S EXCEPT !.mgr = MgrOf(o.k)]
+    [] o.op = "mgr_append" -> [S EXCEPT !.mgr = @ \cup MgrOf(o.k)]
     [] o.op = "mkproxy" -> [S EXCEPT !.made = @ \cup {o.k}]
     [] o.op \in ObjOps -> IF Bound(S, c, o.k) # NoBox
                            THEN [S EXCEPT !.cont = ObjNext(S.cont, Bound(S, c, o.k), o)] ELSE S
@@ -189,6 +233,10 @@ NextOf(S, o) ==
                                    !.attrs[o.child] = S.attrs[c],
                                    !.stack[o.child] = S.stack[c]]
     [] OTHER -> S          \* get, iter, top, proxy_read
+
+\* Outcomes the documentation leaves open (the judge accepts NextOf or this one):
+\*  - the app raised inside the middleware: releasing anyway is as acceptable as not releasing
+AltNextOf(S, o) == IF o.op = "mw" /\ o.v = 3 THEN ReleaseIn(AppEffect(S, o), o.ctx, S.mgr) ELSE NextOf(S, o)
 
 Step(S, o) == [s |-> NextOf(S, o), ret |-> RetOf(S, o)]
 
@@ -205,10 +253,10 @@ NoLeak(S, o, T) ==            \* an operation in one context changes no sibling'
 ChildSeesSnapshot(S, o, T) == \* a child starts with exactly the parent's bindings
   o.op = "spawn" => /\ T.attrs[o.child] = S.attrs[o.ctx] /\ T.stack[o.child] = S.stack[o.ctx]
                     /\ T.attrs[o.ctx] = S.attrs[o.ctx]   /\ T.stack[o.ctx] = S.stack[o.ctx]
-ReleaseIsLocal(S, o, T) ==    \* releasing empties the releasing context only
+ReleaseIsLocal(S, o, T) ==    \* releasing empties the releasing context, and only that one
   o.op \in ReleaseOps =>
-     /\ (o.op # "release_stack" => T.attrs[o.ctx] = NoAttrs)
-     /\ (o.op # "release" => T.stack[o.ctx] = <<>>)
+     /\ ("ns" \in Released(S, o) => T.attrs[o.ctx] = NoAttrs)
+     /\ ("stack" \in Released(S, o) => T.stack[o.ctx] = <<>>)
      /\ \A d \in S.alive \ {o.ctx} : ViewOf(T, d) = ViewOf(S, d)
 ProxyInAccessingContext(S, o, T) ==   \* a proxy acts on the object bound where it is used
   /\ o.op = "proxy_read" =>
